@@ -1,4 +1,5 @@
 import PyecoreModel.Lemmas.Paths
+import PyecoreModel.Lemmas.HrefText
 import PyecoreModel.Properties.C11
 /-!
 # C14 — References across resources reach the right object after a reload  (**partial**)
@@ -49,3 +50,22 @@ example : relpath ["t", "d2", "b.xmi"] ["t", "d1", "x"] = ["..", "..", "d2", "b.
 example : hrefRoundTrip ["t", "d1", "m.xmi"] ["t", "d2", "m.xmi"] = ["t", "d2", "m.xmi"] := by decide
 
 end Paths
+
+namespace HrefText
+
+/-- **The text of an href**: reading drops an announced type (`prefix:Type uri#fragment` is `uri#fragment`) … -/
+theorem C14_href_typed (t u : List Char) (ht : ∀ x ∈ t, x ≠ ' ') (htw : typeWord t = true) (hu : u ≠ [])
+    (h1 : ∀ c, u.head? = some c → isBlank c = false) (h2 : ∀ c, u.getLast? = some c → isBlank c = false) :
+    normalize (t ++ ' ' :: u) = u := normalize_typed t u ht htw hu h1 h2
+
+/-- … and nothing else: a path with blanks in it (`my dir/b.xmi#//@kids.0`, `a b.xmi#/`, `../x y/z.json#id`) is read as
+written — the word in front of its first blank has a `/` or a `#` in it, or no `:` -/
+theorem C14_href_blanks (s : List Char) (h : typeWord (head s) = false) : normalize s = s := normalize_plain s h
+
+example : normalize "ecore:EClass http://x/y#//A".toList = "http://x/y#//A".toList := by decide
+example : normalize "my dir/b.xmi#//@kids.0".toList = "my dir/b.xmi#//@kids.0".toList := by decide
+example : normalize "a b.xmi#/".toList = "a b.xmi#/".toList := by decide
+example : typeWord (head "../my models/x y.json#id7".toList) = false := by decide
+
+end HrefText
+
